@@ -1529,7 +1529,7 @@ class Exec:
             found, selfv = st.lookup(st.frame.fi.node.args.args[0].arg)
             cls_ctx = st.frame.env.get("__class__")
             return [Out("val", SuperV(cls_ctx, selfv), st)]
-        if isinstance(e.func, ast.Attribute) and e.func.attr in ("heappush", "heappop") and isinstance(e.func.value, ast.Name) \
+        if isinstance(e.func, ast.Attribute) and e.func.attr in ("heappush", "heappop", "heapify") and isinstance(e.func.value, ast.Name) \
                 and e.func.value.id == "heapq" and e.args:
             return self.call_heapq(e, st)
         if isinstance(e.func, ast.Attribute) and e.func.attr in self.lib.MUTATORS:
@@ -1570,8 +1570,8 @@ class Exec:
         res.extend(raises)
         for vals, s in acc:
             h = vals[0]
-            if e.func.attr == "heappush":
-                new = heaplib.heappush(self, s, h, vals[1], e)
+            if e.func.attr in ("heappush", "heapify"):
+                new = heaplib.heappush(self, s, h, vals[1], e) if e.func.attr == "heappush" else heaplib.heapify(self, s, h, e)
                 for o3 in self.assign_target(self.as_store(e.args[0]), new, s):
                     res.append(Out("val", None, o3.st) if o3.kind == "next" else o3)
             else:
